@@ -329,6 +329,58 @@ theorem C18_consolidated_transparent {ρ : Type} (orig : List Char → List Char
   rw [List.append_assoc]
   exact List.mem_append_right _ hu
 
+/-- **The declared base contains the collection, and the declaration is effective.**  URL paths as `urlparse` gives them
+    (starting with '/').  After consolidation: the base is on the first file's host; every read request and DMR/pre-fetch
+    request of every file of the collection on that host passes the containment test of `custom_create_key`; and (outside
+    Earthdata) the whole read of a declared dimension array `d[0:1:n-1]` (n ≥ 1) from ANY such file gets exactly the key under
+    which the pre-fetch stored the first file's array — so it is answered from the store (`C18_cache_trace`), which is
+    what `hagree` of `C18_consolidated_transparent` is about. -/
+theorem C18_consolidated_base_contains (orig : List Char → List Char) (files : List FileIn) (decl : Decl)
+    (h : (consolidate true files).result = .ok (some decl))
+    (hslash : ∀ g ∈ files, ∃ r, g.path = '/' :: r) :
+    ∃ f0 rest, files = f0 :: rest ∧ decl.base.host = f0.host ∧
+      (∀ f ∈ files, f.host = f0.host → ∀ v slabs, underBase (some decl.base) (readReq f v slabs) = true) ∧
+      (∀ d n, underBase (some decl.base) (dimReq f0 d n) = true) ∧
+      (f0.host ≠ earthdataHost → ∀ f ∈ files, f.host = f0.host → ∀ d n, f0.dims.lookup d = some n → 1 ≤ n →
+        keyAfter orig decl (readReq f d [(0, 1, n - 1)]) = keyAfter orig decl (dimReq f0 d n)) := by
+  obtain ⟨f0, rest, sized, hf, _, _, _, hsz, _, hb, hsh, _, _⟩ := consolidate_some h
+  have hs := sizesInFirst_ok hsz
+  have hf0 : f0 ∈ files := by rw [hf]; exact List.mem_cons_self
+  have hhost : decl.base.host = f0.host := (computeBase_under hb hslash hf0 []).1
+  have hread : ∀ f ∈ files, f.host = f0.host → ∀ v slabs, underBase (some decl.base) (readReq f v slabs) = true := by
+    intro f hfm hh v slabs
+    simp only [underBase, readReq, Bool.and_eq_true]
+    exact ⟨decide_eq_true (hh.trans hhost.symm), (computeBase_under hb hslash hfm _).2⟩
+  have hdim : ∀ d n, underBase (some decl.base) (dimReq f0 d n) = true := by
+    intro d n
+    simp only [underBase, dimReq, Bool.and_eq_true]
+    exact ⟨decide_eq_true hhost.symm, (computeBase_under hb hslash hf0 _).2⟩
+  refine ⟨f0, rest, hf, hhost, hread, hdim, ?_⟩
+  intro hne f hfm hh d n hl hn
+  have hin : declText d n ∈ decl.shared := by
+    rw [hsh, List.mem_map]
+    have hd : d ∈ dimsUnion files := mem_dimsUnion.2 ⟨f0, hf0, n, lookup_mem' hl⟩
+    rw [← hs.1] at hd
+    obtain ⟨p, hp, rfl⟩ := List.mem_map.1 hd
+    have := hs.2 p hp
+    rw [hl] at this
+    cases this
+    exact ⟨p, hp, rfl⟩
+  exact (cacheKey_shared_hit orig decl.shared decl.base (readReq f d [(0, 1, n - 1)]) (dimReq f0 d n) (declText d n)
+    (by rw [declText_eq_ceText d hn]; rfl) rfl hin rfl hh (by simpa [readReq, hh] using hne)
+    (hread f hfm hh _ _) (hdim d n)).1
+
+
+/-- `hagree` cannot be dropped: two files under `/data` whose `t` differ (the server echoes the URL): the whole read of `t`
+    from the second file through the consolidated session returns the pre-fetched array of the first -/
+theorem C18_consolidated_needs_agree :
+    ¬ (∀ (server : CK.Req → List Char) (reads : List CK.Req),
+        (∀ r1 r2 : CK.Req, r1.url = r2.url → server r1 = server r2) →
+        (runCached (keyAfter id exDecl) server (runCached (keyBefore id) server [] (consolidate true exFiles).dmrGets).2
+            ((consolidate true exFiles).dimGets ++ reads)).1
+          = runPlain server ((consolidate true exFiles).dimGets ++ reads)) :=
+  consolidated_needs_agree
+
 /-! ### non-vacuity -/
 example : SessInv (some 3) (openHeap ['u'] [] (some 3) ['s'] [['i']] [(['a'], [2], true)]) :=
   C18_open_session _ _ _ _ _ _
@@ -391,6 +443,13 @@ example : (runCached (keyAfter id exDecl) (fun _ => ()) (runCached (keyBefore id
     = runPlain (fun _ => ()) ((consolidate true exFiles).dimGets ++ [readReq exFileB "t".toList [(0, 1, 1)], readReq exFileB "t".toList [(0, 1, 0)]]) :=
   C18_consolidated_transparent id (fun _ _ h => h) exFiles exDecl exFiles_result _ _ (fun _ _ _ _ _ => rfl)
     (fun _ _ _ _ _ _ _ _ _ _ _ _ _ _ _ => rfl)
+/-- the hypotheses of `C18_consolidated_base_contains` hold for the example collection -/
+example : ∀ g ∈ exFiles, ∃ r, g.path = '/' :: r := by
+  intro g hg
+  simp only [exFiles, List.mem_cons, List.not_mem_nil, or_false] at hg
+  rcases hg with rfl | rfl
+  · exact ⟨_, rfl⟩
+  · exact ⟨_, rfl⟩
 example : 1 ∉ slabSel 3 (0, 1, 0) ∧ slabSel 3 (0, 1, 2) = [0, 1, 2] ∧ slabSel 5 (0, 1, 2) = [0, 1, 2] := by decide
 
 end Pydap.C18
